@@ -379,6 +379,13 @@ func c07RunBlocking(c *fw.Ctx, canary *hx.Canary, id string, prog string, delay 
 			panic(err)
 		}
 		ctx, cancel := context.WithCancel(context.Background())
+		if (delay/time.Millisecond)%2 == 1 {
+			// the cancelled context also carries a deadline far in the future (an explicit cancel must not wait for it)
+			var c2 context.CancelFunc
+			ctx, c2 = context.WithTimeout(ctx, 10*time.Minute)
+			defer c2()
+			c.Count("blocking_programs_with_far_deadline", 1)
+		}
 		defer cancel()
 		canary.Take()
 		var cancelAt time.Time
@@ -507,14 +514,22 @@ func runC07(c *fw.Ctx) {
 		c07RunDeadlineFree(c, canary, fmt.Sprintf("deadline-retry-%d", i), gen.Pick(r, []string{"(retry-loop 0)", "(retry-loop2 0)", "(try (retry-loop 0) (catch e :const))"}), "retry", dl)
 	}
 	// (4) blocking builtins under asynchronous cancel
-	blocking := []string{"(sleep 60000)", "@(future (sleep 60000))", "@(future (tail-loop 0))", "(try (sleep 60000) (catch e (sleep 60000)))", "(try @(future (sleep 60000)) (finally (sleep 60000)))", "(map (fn (x) (sleep 60000)) [1 2])", "(swap! (atom 0) (fn (n) (sleep 60000)))",
+	blocking := []string{"(sleep 60000)", "(sleep 9000)", "(try (sleep 9000) (catch e (sleep 9000)))", "(do (sleep 9000) :slept)",
+		// tens of thousands of pending non-tail calls when the context ends: unwinding them is part of the bound
+		"(do (def deep-wait (fn (n) (if (< n 1) (sleep 60000) (+ 1 (deep-wait (- n 1)))))) (deep-wait 40000))",
+		"(do (def deep-spin (fn (n) (if (< n 1) (tail-loop 0) (+ 1 (deep-spin (- n 1)))))) (deep-spin 40000))", "@(future (sleep 60000))", "@(future (tail-loop 0))", "(try (sleep 60000) (catch e (sleep 60000)))", "(try @(future (sleep 60000)) (finally (sleep 60000)))", "(map (fn (x) (sleep 60000)) [1 2])", "(swap! (atom 0) (fn (n) (sleep 60000)))",
 		"(do (def slow (future (sleep 60000))) (def watcher (future @slow)) (sleep 5)) ||| @slow",
 		"(do (def slow (future (sleep 60000))) (def w1 (future @slow)) (def w2 (future (try @slow (catch e 1)))) (sleep 5)) ||| (try @slow (catch e (sleep 60000)))",
 		"(do (def slow (future (sleep 60000))) (sleep 1)) ||| (do (def w (future @slow)) (sleep 5) @slow)",
 		"(do (def a (atom 0)) (def busy (future (swap! a (fn (n) (do (sleep 60000) n))))) (sleep 5)) ||| (swap! a (fn (n) (do (sleep 60000) n)))",
 		"(do (def a (atom 0)) (def busy (future (swap! a (fn (n) (do (sleep 60000) n))))) (sleep 5)) ||| (do @a (reset! a 1) (str a) (sleep 60000))"}
 	for i := 0; i < c.PerShard(c.Pick(160, 4000)); i++ {
-		c07RunBlocking(c, canary, fmt.Sprintf("blocking-%d", i), blocking[r.Intn(len(blocking))], time.Duration(2+r.Intn(40))*time.Millisecond)
+		bp := blocking[r.Intn(len(blocking))]
+		delay := time.Duration(2+r.Intn(40)) * time.Millisecond
+		if strings.Contains(bp, "40000") {
+			delay += 400 * time.Millisecond // time to get 40000 calls deep
+		}
+		c07RunBlocking(c, canary, fmt.Sprintf("blocking-%d", i), bp, delay)
 	}
 }
 
